@@ -512,6 +512,18 @@ void ApplyEdits(RSForm& form, const json& edits, json& log) {
       } else {
         log.push_back(nullptr);
       }
+    } else if (k == "swapfields") {
+      // the formal definition and the convention text of ONE constituent change places (same multiset of texts in the schema)
+      const auto uid = NthCst(form, e.at("i"));
+      if (uid.has_value()) {
+        const std::string def = form.GetRS(*uid).definition;
+        const std::string conv = form.GetRS(*uid).convention;
+        const bool a = form.SetExpressionFor(*uid, conv);
+        const bool b = form.SetConventionFor(*uid, def);
+        log.push_back(json::array({ a, b }));
+      } else {
+        log.push_back(nullptr);
+      }
     } else if (k == "move") {
       const auto uid = NthCst(form, e.at("i"));
       const auto before = NthCst(form, e.at("before"));
